@@ -213,6 +213,31 @@ def run(ctx):
         good = good and "with_state_key" in keyx and "Event::event_type" in keyx
     ctx.check(good, "C07.auth", "C07.auth:insert-iff-ok", w.where(f), bad_msg="the event is inserted on a path that does not come from auth_check's Ok result (or under a foreign key)")
 
+    # ---- the sort key does not depend on the order of an event's auth_events -------------------------------------------------------
+    ctx.rule("C07.power-level-scan", "get_power_level_for_sender leaves the loop over the event's auth_events early only once it has seen the power-levels event AND knows "
+                                     "the creator (cached, or the create event): the order in which a PDU lists its auth events is arbitrary, and without the "
+                                     "creator the function falls back to users_default for every sender")
+    fpl = w.fn(SR + "get_power_level_for_sender")
+    dexp2 = D.Dex(w.lookup, adt_discr=w.adt_discr, ctors=w.ctors, unroll=2, max_paths=400000, inline=lambda n: "{closure" in n)
+    n_break, bad = 0, []
+    for pth in dexp2.paths(fpl, [D.sym(x) for x in ["event_id", "rules", "creator_lock", "fetch_event"]]):
+        if pth.kind != "ret":
+            continue
+        conds = [(D.show_atom(a), t) for a, t in pth.conds]
+        nexts = [(a, t) for a, t in conds if a.startswith("Iterator::next(") and " is " in a and t]
+        if not nexts or nexts[-1][0].endswith(" is None"):
+            continue                 # no loop, or the list was exhausted
+        n_break += 1
+        seen = {("PL" if "RoomPowerLevels" in a else "CR") for a, t in conds if "is_type_and_key(" in a and t}
+        cached = ("OnceLock::get(creator_lock) is Some", True) in conds
+        need = {"PL"} if cached else {"PL", "CR"}
+        if not need <= seen:
+            bad.append((sorted(seen), cached))
+    ctx.check(n_break >= 2 and not bad, "C07.power-level-scan", "C07.power-level-scan:early-exit", w.where(fpl),
+              ok_msg=f"{n_break} early exits, each after the power levels and the creator are known",
+              bad_msg=f"the scan of auth_events stops after seeing only {bad[0][0] if bad else '?'} (creator cached: {bad[0][1] if bad else '?'}): an event that lists "
+                      f"m.room.power_levels before m.room.create gets users_default instead of the sender's level as its sort key")
+
     # ---- set algebra -----------------------------------------------------------------------------------------------------
     ctx.rule("C07.sets", "get_auth_chain_diff keeps an id iff it is in fewer sets than there are sets; separate: unconflicted iff the (key, id) pair occurs in every state set")
     clos = [fn for fn in w.all_fns() if fn["path"].startswith(SR + "get_auth_chain_diff::{closure") and "body" in fn]
@@ -235,6 +260,7 @@ def run(ctx):
     gf = w.fn(SR + "get_auth_chain_diff")
     adaptors = {M.callee_name(c).rsplit("::", 1)[-1] for _, c in M.calls(gf["body"])}
     okd = (select and "filter_map" in adaptors) or (pred and proj and {"filter", "map"} <= adaptors)
+    auth_diff_operand(ctx, w, "C07.sets", "C07.sets:auth-diff-operand")
     ctx.check(okd, "C07.sets", "C07.sets:auth-diff", w.where(w.fn(SR + "get_auth_chain_diff")), bad_msg="auth difference is not `count < num_sets`")
     f = w.fn(SR + "separate")
     eqs = []
@@ -302,3 +328,19 @@ def _same_expr(a, b):
     if isinstance(a, tuple) and isinstance(b, tuple):
         return len(a) == len(b) and all(_same_expr(x, y) for x, y in zip(a, b))
     return a == b
+
+
+def auth_diff_operand(ctx, w, rule, key):
+    """get_auth_chain_diff only measures (len) and consumes (into_iter / iter) its vector of sets: the count of an id is compared with the
+    number of sets that were actually counted, whatever their order."""
+    gf = w.fn(SR + "get_auth_chain_diff")
+    touch = []
+    defs = PC.roots(gf["body"])
+    for _, c in M.calls(gf["body"]):
+        for o in c["args"][:1]:
+            if o.get("k") in ("copy", "move") and (M.pl_local(o["pl"]) == 1 or PC.expr(gf["body"], defs, o) == ("arg", 1)):
+                touch.append(M.callee_name(c).rsplit("::", 1)[-1])
+    allowed = {"len", "into_iter", "iter", "deref", "as_slice"}
+    ctx.check(set(touch) <= allowed and "len" in touch, rule, key, w.where(gf),
+              bad_msg=f"get_auth_chain_diff applies {sorted(set(touch) - allowed)} to the vector of auth chain sets: the number of sets counted then differs from "
+                      f"num_sets (e.g. Vec::dedup removes adjacent equal chains only, so the result depends on the order of the forks)")
